@@ -2,4 +2,5 @@
 import McpModel.Base.Proto
 import McpModel.EventStore.Props
 import McpModel.EventStore.Driver
+import McpModel.Resume.Props
 import McpModel.Resume.Driver
